@@ -34,6 +34,7 @@ CONSTANTS Derives,          \* subset of the six derive names explored by this c
           MaxContainer, MaxField1, MaxField2, MaxVariant1, MaxVariant2,
           EMIT
 
+AnyIx == 0..9            \* item numbers a position may carry (0 = the member itself)
 ElementLevel == {"FromDeriveInput", "FromField", "FromVariant", "FromTypeParam", "FromAttributes"}
 It(name, form) == [name |-> name, form |-> form]
 
@@ -305,27 +306,27 @@ BodyViolations ==
   CASE shape \in {"named", "named_attrs"} ->
          ElementViolations("f1", f1.items, FieldKnown, {}, "unit")
          \cup (IF shape = "named" THEN ElementViolations("f2", f2.items, FieldKnown, {}, "unit") ELSE {})
-         \cup (IF shape = "named" /\ Flattens(f1) /\ Flattens(f2) THEN {Viol("multi-flatten", {<<"f1", 0>>, <<"f2", 0>>} \cup {<<"f1", i>> : i \in 1..3} \cup {<<"f2", i>> : i \in 1..3})} ELSE {})
+         \cup (IF shape = "named" /\ Flattens(f1) /\ Flattens(f2) THEN {Viol("multi-flatten", {<<"f1", 0>>, <<"f2", 0>>} \cup {<<"f1", i>> : i \in AnyIx \ {0}} \cup {<<"f2", i>> : i \in AnyIx \ {0}})} ELSE {})
          \cup (IF shape = "named_attrs" /\ elem /\ ~Given("forward_attrs") THEN {Viol("attrs-without-forward", {<<"f2", 0>>})} ELSE {})
     [] shape \in {"unit", "newtype"} ->
-         IF derive = "FromMeta" /\ Given("from_word") THEN {Viol("from_word-unit-newtype", {<<"c", i>> : i \in 0..3})} ELSE {}
+         IF derive = "FromMeta" /\ Given("from_word") THEN {Viol("from_word-unit-newtype", {<<"c", i>> : i \in AnyIx})} ELSE {}
     [] shape = "tuple2" -> IF derive = "FromMeta" THEN {Viol("body-unrepresentable", {<<"body", 0>>})} ELSE {}
     [] shape = "enum0" -> IF elem THEN {Viol("body-unrepresentable", {<<"body", 0>>, <<"call_site", 0>>})} ELSE {}
     [] shape = "enum" ->
          IF elem THEN {Viol("body-unrepresentable", {<<"v1", 0>>, <<"v2", 0>>, <<"body", 0>>})}
          ELSE ElementViolations("v1", v1.items, VariantKnown, {}, V1Style) \cup ElementViolations("v2", v2.items, VariantKnown, {}, "unit")
               \cup (IF V1Style = "tuple2" /\ ~(\E i \in 1..Len(v1.items) : v1.items[i].name = "skip" /\ GoodForm("skip", v1.items[i].form))
-                    THEN {Viol("body-unrepresentable", {<<"v1", i>> : i \in 0..3})} ELSE {})
+                    THEN {Viol("body-unrepresentable", {<<"v1", i>> : i \in AnyIx})} ELSE {})
               \cup (IF ((WordTrue(v1) /\ V1Style = "unit") \/ WordTrue(v2)) /\ Given("from_word")
-                    THEN {Viol("word+from_word", {<<"c", i>> : i \in 0..3} \cup {<<"v1", i>> : i \in 0..3} \cup {<<"v2", i>> : i \in 0..3})} ELSE {})
+                    THEN {Viol("word+from_word", {<<"c", i>> : i \in AnyIx} \cup {<<"v1", i>> : i \in AnyIx} \cup {<<"v2", i>> : i \in AnyIx})} ELSE {})
               \cup (IF WordTrue(v1) /\ V1Style = "unit" /\ WordTrue(v2)
-                    THEN {Viol("multi-word", {<<"v1", i>> : i \in 0..3} \cup {<<"v2", i>> : i \in 0..3})} ELSE {})
+                    THEN {Viol("multi-word", {<<"v1", i>> : i \in AnyIx} \cup {<<"v2", i>> : i \in AnyIx})} ELSE {})
     [] shape = "union" -> {}
 
 WholeViolations ==
   (IF shape = "union" THEN {Viol("union", {<<"call_site", 0>>, <<"body", 0>>})} ELSE {})
   \cup (IF derive = "FromAttributes" /\ shape # "newtype" /\ ~(\E i \in 1..Len(cont.items) : cont.items[i].name = "attributes" /\ cont.items[i].form = "words")
-        THEN {Viol("fromattributes-without-attributes", {<<"call_site", 0>>} \cup {<<"c", i>> : i \in 0..3})} ELSE {})
+        THEN {Viol("fromattributes-without-attributes", {<<"call_site", 0>>} \cup {<<"c", i>> : i \in AnyIx})} ELSE {})
 
 AllViolations == ContainerViolations \cup BodyViolations \cup WholeViolations
 WellFormed == AllViolations = {}
